@@ -139,7 +139,7 @@ impl Ls {
                     file_info.path().to_string_lossy(),
                     e
                 )
-                .unwrap();
+                .ok();
                 matcher_io.set_exit_code(1);
                 return;
             }
@@ -209,7 +209,7 @@ impl Ls {
                         file_info.path().to_string_lossy(),
                         e
                     )
-                    .unwrap();
+                    .ok();
                     matcher_io.set_exit_code(1);
                 }
             }
@@ -278,7 +278,7 @@ impl Ls {
                         file_info.path().to_string_lossy(),
                         e
                     )
-                    .unwrap();
+                    .ok();
                     matcher_io.set_exit_code(1);
                 }
             }
